@@ -14,6 +14,12 @@ def unit():
                 fx_fns=[], fx_prims=[r'self\.0\.send\('], parts=[
         TypeItem(SRC, 'struct', 'RequestCancellation'),
         TypeItem(SRC, 'struct', 'CanceledRequests'),
+        Fn(SRC, None, 'cancellations', tags='C03,C04',
+           ensures='''
+             // C03/C04: the handle and the stream returned together are the two ends of ONE queue: what is cancelled through the
+             // first is what the second yields
+             r.0.0.chan() == r.1.0.chan(), // @C03,C04
+           '''),
         Impl('impl RequestCancellation', qual='RequestCancellation', parts=[
             Fn(SRC, r'impl RequestCancellation', 'cancel', fx=True, tags='C03,C04,C11',
                ensures='''
